@@ -73,8 +73,8 @@ def unresolved_names(fi):
     out = []
     if bad:
         for n in walk_own(fi.node):
-            if isinstance(n, ast.Name) and isinstance(n.ctx, ast.Load) and n.id in bad:
-                out.append((n.id, n.lineno, n))
+            if isinstance(n, ast.Name) and isinstance(n.ctx, ast.Load) and getattr(n, "_orig_id", n.id) in bad:
+                out.append((getattr(n, "_orig_id", n.id), n.lineno, n))
     return out
 
 
@@ -91,7 +91,7 @@ def possibly_unbound(fi, only=None):
                 locals_.add(s.get_name())
     out = []
     for n in walk_own(fi.node):
-        if isinstance(n, ast.Name) and isinstance(n.ctx, ast.Load) and n.id in locals_:
+        if isinstance(n, ast.Name) and isinstance(n.ctx, ast.Load) and getattr(n, "_orig_id", n.id) in locals_:
             if only is not None and n.id not in only:
                 continue
             # skip names inside nested lambdas/comprehensions binding them
